@@ -24,7 +24,13 @@ def build(reg):
                  f"{M}:permute_occupations_and_correlations", f"{M}:permute_atom_order",
                  f"{M}:MPSBackendImpl.permute_results", f"{M}:MPSBackendImpl.fill_results[no filter]",
                  f"{B}:MPSBackend._run_from_sequence_data", f"{B}:MPSBackend._run_from_sequence_data[N=4]",
-                 f"{B}:MPSBackend.resume", f"{B}:MPSBackend.resume[N=4]"],
+                 f"{B}:MPSBackend.resume", f"{B}:MPSBackend.resume[N=4]",
+                 # results stored under suffixed tags (Observable(tag_suffix=...))
+                 f"{M}:permute_bitstrings[tag_suffix]", f"{M}:permute_occupations_and_correlations[tag_suffix]",
+                 f"{M}:MPSBackendImpl.permute_results[tag_suffix]",
+                 f"{B}:MPSBackend._run_from_sequence_data[tag_suffix]",
+                 f"{B}:MPSBackend._run_from_sequence_data[tag_suffix,N=4]",
+                 f"{B}:MPSBackend.resume[tag_suffix]", f"{B}:MPSBackend.resume[tag_suffix,N=4]"],
         explanation=(
             "Ghost convention: MPS site k holds register atom perm[k].  Proved (all register sizes N, all "
             "permutations): impl.results lists atoms in site order (atom_order[k] == qubit_ids[perm[k]]); perm is "
